@@ -349,7 +349,8 @@ def build(desc, importer, cls=None, gid=None):
 def canon_of_id(storage, graph_id, dups=None):
     """({NodeID: (Class, props without GraphID/NodeID/Class)}, {frozenset{a,b}: (Class, props)}) or ({}, {}).
     Two nodes with one NodeID in a graph: appended to `dups` when given, otherwise an AssertionError."""
-    g = storage.extract_graph(graph_id)
+    from fimverif.engines import store as _store
+    g = _store.observe_storage(storage, graph_id)
     if g is None:
         return {}, {}
     nodes, edges = {}, {}
